@@ -177,7 +177,7 @@ def run(prop, tier, seed, t0):
             cov['samples'].append({'engine': 'kani', 'harness': h['name'], 'what': h.get('what'), 'complete': h['complete'], 'bound': h['bound'], 'status': h['status']})
         cov['trusted_base'] += k.get('trusted', [])
 
-    if cov['obligations'] == 0 and not violations:
+    if cov['obligations'] == 0 and not violations and not (level == 'model_checking' and cov['bounded_standins']):
         undecided.append('no obligation was generated for %s (vacuity guard)' % prop)
 
     # ---- definition-directed witnesses for failed derive obligations, replayed natively ---------------
@@ -264,9 +264,12 @@ def run(prop, tier, seed, t0):
         cov['program_names'] = progs
         cov['disagreements_checked'] = cov['obligations']
     if level == 'model_checking':
-        cov['evaluations'] = max(1, cov['obligations'] + len(cov['bounded_standins']))
-        cov['distinct_nontrivial'] = max(2, cov['obligations'] + len(cov['bounded_standins']))
-        cov['rule'] = 'one evaluation per Kani harness (symbolic over all inputs within the stated bound)'
+        ok_h = sorted(set(b['harness'] for b in cov['bounded_standins'] if b['status'] == 'SUCCESS'))
+        cov['evaluations'] = cov['obligations'] + len(cov['bounded_standins'])
+        cov['distinct_nontrivial'] = cov['discharged'] + len(ok_h)
+        cov['rule'] = ('one evaluation per Kani harness run (each symbolic over all inputs within its stated bound); a harness counts as '
+                       'distinct and non-trivial when it has a distinct name/target type and CBMC reported VERIFICATION SUCCESSFUL with a non-zero number of checks')
+        cov['exhaustive'] = False
     ev = {
         'property_id': prop, 'tier': tier, 'seed': seed, 'level': level, 'coverage': cov,
         'assumptions': GENERAL_ASSUMPTIONS + info.get('assumptions', []),
